@@ -262,6 +262,8 @@ def gen_string(rng, maxlen=12):
     if n >= 2 and rng.random() < 0.15:
         k = rng.randrange(0, n - 1)
         s[k:k + 2] = rng.choice(DECOMPOSED)
+    if rng.random() < 0.05:
+        s = s + [ord(c) for c in rng.choice(['{0}', '{}', '{x}', '%s', '{0[a]}'])]
     return s
 
 
